@@ -256,7 +256,7 @@ def generate(rng, ntasks=8, kinds=None, want=None):
 # kind (not reported, not waited for, not invalidated, not resolved) cannot hide behind a second link
 LINKS = [
     ('direct', 'a'), ('item', 'a[1]'), ('neg-item', 'a[-1]'), ('slice', 'a[1:3]'), ('task-index', 'a[i]'), ('item-of-item', 'p[0][1]'),
-    ('task-index-inner', 'q[i][0]'), ('dict-key', 'd["l"]'), ('dict-key-item', 'd["l"][0]'),
+    ('task-index-inner', 'q[i][0]'), ('tasklet-index', 'a[ix[0]]'), ('tasklet-index-slice', 'a[ix[0:1][0]]'), ('dict-key', 'd["l"]'), ('dict-key-item', 'd["l"][0]'),
     ('list', '[a, 1]'), ('tuple', '(a,)'), ('dict-value', "{'k': a}"), ('deep-list', '[[a, 1], 2]'), ('deep-tuple', '([a],)'), ('deep-mixed', "[{'k': (a, 0)}]"),
     ('deep-tasklet', '[[a[1]], 0]'), ('keyword', None),
     ('mapped-whole', 'm'), ('mapped-item', 'm[2]'), ('mapped-last', 'm[-1]'), ('mapped-slice', 'm[1:5]'), ('mapped-slice-step', 'm[::2]'),
@@ -264,7 +264,7 @@ LINKS = [
     ('mapped-slice-item', 'm[1:6][2]'), ('mapped-in-list', '[m[::-1], 0]'), ('map1-item', 'm1[1]'), ('map1-whole', 'm1'),
     ('currymap-item', 'cm[1]'), ('mapreduce', 'mr'), ('reduce', 'rd'), ('identity', 'identity(a)'), ('identity-list', 'identity([a, 2])'),
     ('iteratetask', 'it0'), ('return-tuple', 'rt1'), ('customhash-plain', None), ('numpy', 'ar'), ('none', 'nl'),
-    ('duplicate-producer', None), ('duplicate-consumer', None),
+    ('duplicate-producer', None), ('duplicate-consumer', None), ('sibling-consumers', None),
 ]
 
 SINGLE_PRELUDE = """a = mk(1, 5)
@@ -279,6 +279,7 @@ mr = mapreduce(cat, wrap, list(range(1, 8)), map_step=2, reduce_step=3)
 rd = jreduce(cat, [(10 + j,) for j in range(5)], reduce_step=2)
 it0, it1 = iteratetask(a, 2)
 rt0, rt1, rt2 = pair2(6, a, 1)
+ix = pair(33, 1, 2)
 ar = arr(8, 3)
 nl = nil(9)
 """
@@ -299,6 +300,12 @@ def single_link_programs():
             line = 'a = mk(1, 5)\na2 = mk(1, 5)\nc = use(20, a2[1])\ne = inc(21, c)\n'
         elif kind == 'duplicate-consumer':
             line = 'a = mk(1, 5)\nc0 = use(20, a)\nc = use(20, a)\ne = inc(21, c)\n'
+        elif kind == 'sibling-consumers':
+            # consumers that differ ONLY in which element / view of the same task they receive (same function, no distinguishing key):
+            # they are different invocations and must not take each other's results
+            line = ('a = mk(1, 5)\nrt0, rt1, rt2 = pair2(6, a, 1)\nit0, it1 = iteratetask(a, 2)\n'
+                    'q = pair(4, [a, 1], [2, 3])\n'
+                    'c = [same(rt0), same(rt1), same(rt2), same(it0), same(it1), same(a[2]), same(a[3]), same(a[1:3]), same(a[2:4]), same(q[0][1]), same(q[1][1]), same(q[1][0])]\ne = use(21, c)\n')
         elif kind == 'customhash-plain':
             line = 'c = use(20, CustomHash([1, 2], hash_one), other=NoHash(3))\ne = inc(21, c)\n'
         else:
@@ -318,7 +325,7 @@ def single_link_programs():
                     keep[j] = True
                     needed |= set(_re.findall(r'[A-Za-z_][A-Za-z_0-9]*', rhs))
                     changed = True
-        if kind.startswith('duplicate'):
+        if kind.startswith('duplicate') or kind == 'sibling-consumers':
             keep = [False] * len(plines)
         prelude = ''.join(pl + '\n' for j, pl in enumerate(plines) if keep[j]) + 'z = const(30)\n'
         out.append(FixedProgram(HEADER + prelude + line, {'single-link:' + kind: 1}))
